@@ -971,6 +971,9 @@ func (e *Engine) verifyFunc(key string) (c *Ctx, err error) {
 		// likewise nothing can have retained (kept references into) an array that does not exist yet
 		rt := c.heapGet(s, "X.retained", sA1)
 		s.assume(fmt.Sprintf("(forall ((r Int)) (! (=> (not (= (select %s r) 1)) (= (select %s r) 0)) :pattern ((select %s r))))", al, rt, rt))
+		// ... nor can an array that does not exist yet sit in a buffer pool (ghost freed)
+		fr := c.heapGet(s, "X.freed", sA1)
+		s.assume(fmt.Sprintf("(forall ((r Int)) (! (=> (not (= (select %s r) 1)) (= (select %s r) 0)) :pattern ((select %s r))))", al, fr, fr))
 	}
 	c.frameInit()
 	c.smoke(s, "entry", fi.decl.Body.Lbrace)
